@@ -45,6 +45,8 @@ ProjectTags(a, u) ==
     UNION { LET e == u.keys[a.names[j]] IN
             (IF a.values[j] = <<>> \/ (Len(e.vals["en"].c) = 1 /\ e.vals["en"].c[1].s = a.values[j]) THEN {} ELSE {"text:en:" \o a.names[j]})
             \cup (IF a.values[n + 1 - j] = <<>> \/ (Len(e.vals["fr"].c) = 1 /\ e.vals["fr"].c[1].s = a.values[n + 1 - j]) THEN {} ELSE {"text:fr:" \o a.names[j]})
+            \cup (LET r == a.values[(j % n) + 1] IN          \* de: the strings rotated by one
+                  IF r = <<>> \/ (Len(e.vals["de"].c) = 1 /\ e.vals["de"].c[1].s = r) THEN {} ELSE {"text:de:" \o a.names[j]})
           : j \in 1..n }
 
 FileOf(u, t) == (IF u.ns = None THEN "" ELSE u.ns \o "/") \o t.locale \o ".json"
